@@ -628,3 +628,51 @@ pub fn x448_kek(ephemeral: &[u8], recipient: &[u8], shared: &[u8]) -> Vec<u8> {
     hk.expand(b"OpenPGP X448", &mut out).unwrap();
     out
 }
+
+// -------------------------------------------------------------------------------------------
+// GnuPG / LibrePGP "OCB encrypted data" (packet 20) and SKESK v5 - only needed to build
+// artifacts for the version-alignment table (C15)
+// -------------------------------------------------------------------------------------------
+
+pub fn gnupg_aead_encrypt(sym: u8, aead: u8, cs_octet: u8, iv: &[u8], key: &[u8], plaintext: &[u8]) -> Result<Vec<u8>, String> {
+    let cs = 1usize << (cs_octet as usize + 6);
+    let mut out = vec![1u8, sym, aead, cs_octet];
+    out.extend_from_slice(iv);
+    let nonce_for = |i: u64| {
+        let mut n = iv.to_vec();
+        let l = n.len();
+        for (k, b) in i.to_be_bytes().iter().enumerate() {
+            n[l - 8 + k] ^= b;
+        }
+        n
+    };
+    let mut index = 0u64;
+    for chunk in plaintext.chunks(cs) {
+        let mut ad = vec![0xD4u8, 1, sym, aead, cs_octet];
+        ad.extend_from_slice(&index.to_be_bytes());
+        let mut buf = chunk.to_vec();
+        aead_crypt(sym, aead, key, &nonce_for(index), &ad, &mut buf, true)?;
+        out.extend_from_slice(&buf);
+        index += 1;
+    }
+    let mut ad = vec![0xD4u8, 1, sym, aead, cs_octet];
+    ad.extend_from_slice(&index.to_be_bytes());
+    ad.extend_from_slice(&(plaintext.len() as u64).to_be_bytes());
+    let mut fin = vec![];
+    aead_crypt(sym, aead, key, &nonce_for(index), &ad, &mut fin, true)?;
+    out.extend_from_slice(&fin);
+    Ok(out)
+}
+
+/// SKESK v5: key = S2K(pw), AEAD(nonce = iv, AD = C3 05 sym aead) over the session key
+pub fn skesk_v5_encrypt(sym: u8, aead: u8, s2k: &S2k, pw: &[u8], iv: &[u8], session_key: &[u8]) -> Result<Vec<u8>, String> {
+    let key = s2k.derive(pw, sym_key_size(sym).ok_or("sym")?)?;
+    let ad = [0xC3u8, 5, sym, aead];
+    let mut body = vec![5, sym, aead];
+    body.extend_from_slice(&s2k.to_bytes());
+    body.extend_from_slice(iv);
+    let mut buf = session_key.to_vec();
+    aead_crypt(sym, aead, &key, iv, &ad, &mut buf, true)?;
+    body.extend_from_slice(&buf);
+    Ok(body)
+}
